@@ -925,6 +925,12 @@ class Stmt:
         2. ABI encode the return value (if any), unless @raw_return
         3. Return encoded data or stop
         """
+        if func_t.is_constructor and self.ctx.ctor_exit_label is not None:
+            # `return` in `__init__`: continue with the deploy epilogue
+            # (which also releases the nonreentrant lock)
+            self.builder.jmp(self.ctx.ctor_exit_label)
+            return
+
         # Nonreentrant unlock
         self.ctx.emit_nonreentrant_unlock(func_t)
 
